@@ -577,6 +577,18 @@ def lookup_rules(run, r_proj, r_null, ast):
                         if x.get("k") == "UnaryOperator" and x.get("op") == "*" and astq.strip(x["c"][0]).get("k") == "DeclRefExpr" and astq.strip(x["c"][0])["ref"].get("did") in its:
                             raw.append(n)
                             break
+            # not a class-identity decision: membership of an id in the class's own id list (ids ARE compared raw there)
+            byid_, parent_ = astq.index_nodes(f)
+
+            def in_id_list_test(n):
+                x = parent_.get(n["id"])
+                while x is not None:
+                    if x.get("k") == "CallExpr" and re.match(r"^std::(none_of|any_of|find_if|count_if|all_of)<", x.get("callee") or "") and any(
+                            y.get("k") == "MemberExpr" and y.get("member") == "type_ids" for a in x["c"][1:3] for y in astq.walk(a)):
+                        return True
+                    x = parent_.get(x["id"])
+                return False
+            raw = [n for n in raw if not in_id_list_test(n)]
             run.instance(r_proj, "%s: classes are told apart by their class_map entry, never by comparing raw type ids" % short(f), (f["file"], f["line"]), ok=not raw)
             for n in raw:
                 run.violation(r_proj, "compiler::%s|raw-id-comparison" % f["name"].split("::")[-1], "`%s` compares raw type ids: with a many-to-one type_index two different ids can be the same class" % astq.text(n)[:80], (f["file"], n["l"]))
@@ -3129,10 +3141,15 @@ void use() { auto a = set_error_handler(nullptr); auto b = set_method_call_error
                     reads_slot = d.get("init") is not None and any((astq.refname(x) or "") == slot for x in astq.walk(d["init"]))
                     is_ref = (d.get("type") or "").rstrip().endswith("&")
                     ok = reads_slot and not is_ref and k < store[0]
-                    why = "the returned variable is a reference to the handler slot (it reads the NEW handler after the store)" if is_ref else \
-                          "the returned variable is not a copy of the slot taken before the store"
-            elif store is None:
-                why = "no store of the new handler into the policy's handler slot found"
+                    why = "the returned variable is a reference to the handler slot (it reads the NEW handler after the store)" if (is_ref and reads_slot) else \
+                          "the returned variable is a copy of the slot taken AFTER the store" if (reads_slot and k > store[0]) else "shape not recognised"
+            elif r.get("k") == "DeclRefExpr" and r["ref"]["did"] == hp and store is None:
+                # swap(slot, handler); return handler;
+                sw = [x for x in astq.walk(f["body"]) if x.get("k") in ("CallExpr", "CXXMemberCallExpr") and re.search(r"(^std::swap<|::swap$)", x.get("callee") or "") and _refs(x, hp)
+                      and any((astq.refname(y) or "").split("::")[-1] in ("error", "call_error") for y in astq.walk(x))]
+                ok = len(sw) == 1 and sw[0]["l"] <= rets[0]["l"]
+            elif store is not None and (astq.refname(r) or "") == (astq.refname(store[1]) or "-") and r.get("k") in ("DeclRefExpr", "MemberExpr"):
+                why = "the handler slot itself is returned after the new handler was stored in it"
         run.instance(rule, "%s returns the handler installed before the call" % f["name"].split("yomm2::")[-1], (f["file"], f["line"]), ok=ok)
         if not ok:
             if why == "shape not recognised":
